@@ -1,7 +1,7 @@
 """abuse_api — programs over the `ab_*` ops (harness/fam_abuse.cpp): corners of the public API that no other family reaches (size-vector
 arithmetic, the NDArray buffer class, position checks with size vectors of any rank, per-column getters of a data-frame dimension).
 Replayed on the model (NixModel/SizeVec.lean predicts every answer except the data-frame getters), sanitizer build: used by checks/C16.py."""
-from vlib.tok import lst
+from vlib.tok import lst, f64, s as S
 
 DTYPES = ['Bool', 'Int8', 'Int16', 'Int32', 'Int64', 'UInt8', 'UInt16', 'UInt32', 'UInt64', 'Float', 'Double']
 
@@ -12,7 +12,17 @@ def program(rng, tier):
     lines = []
     for _ in range(rng.randint(20, 40)):
         q = rng.random()
-        if q < 0.3:
+        if q < 0.08:
+            def var():
+                t = rng.choice(['Bool', 'Int32', 'UInt32', 'Int64', 'UInt64', 'Double', 'String', 'String', 'Nothing'])
+                if t == 'Bool': return 'Bool:%d' % rng.randint(0, 1)
+                if t == 'Double': return 'Double:' + f64(rng.choice([0.0, -0.0, 1.5, 1e308, float('inf')]))
+                if t == 'String': return 'String:' + S(rng.choice(['', 'a', 'x' * 40, 'äöü€', 'two words']))
+                if t == 'Nothing': return 'Nothing:'
+                if t.startswith('U'): return '%s:%d' % (t, rng.choice([0, 1, 2 ** 31, 2 ** 32 - 1] + ([2 ** 63, 2 ** 64 - 1] if t == 'UInt64' else [])))
+                return '%s:%d' % (t, rng.choice([0, -1, 7, 2 ** 31 - 1, -2 ** 31] + ([2 ** 63 - 1, -2 ** 63] if t == 'Int64' else [])))
+            lines.append('ab_var %s %s' % (var(), var()))
+        elif q < 0.3:
             op = rng.choice(['+', '-', '*', '/', '+=', 'dot', 'lt', 'le', 'gt', 'ge', 'eq', 'idx', 'nelms', 'asg'])
             a = nds(rng)
             b = a if rng.random() < 0.2 else nds(rng)
